@@ -24,6 +24,17 @@ fn c20_guard_vec4_i8_euclid_panics_domain() {
     assert!(false);
 }
 
+// The "panics on EVERY input" mechanism of the *_panics twins really fails when some input does not
+// panic: no assumption here, so many inputs return normally and reach returned_without_panic().
+#[kani::proof]
+#[kani::should_panic]
+fn c20_guard_panics_twin_mechanism() {
+    let a = any_vec!(Vec2<i8> (x y));
+    let b = any_vec!(Vec2<i8> (x y));
+    let _r = Euclid::div_euclid(&a, &b);
+    returned_without_panic();
+}
+
 // domain restriction of the *_real approx harnesses (any_f32_half_range)
 #[kani::proof]
 fn c20_guard_vec2_f32_half_range() {
